@@ -10,7 +10,7 @@ import squeeth_lib as L
 import squeeth_gen as G
 
 PROPERTY = "C14"
-LEAN_MODULES = ["Proofs.C14", "Proofs.C14.Window", "Proofs.C14.Liquidation", "Proofs.C14.Amounts", "Proofs.C14.Moves"]
+LEAN_MODULES = ["Proofs.C14", "Proofs.C14.Window", "Proofs.C14.Liquidation", "Proofs.C14.Amounts", "Proofs.C14.Moves", "Proofs.C14.Update"]
 DRIVERS = ["driver_squeeth"]
 RULE = ("sequences of vault operations (open_deposit_mint on new/existing/unknown vaults with and without an LP position, deposit, "
         "deposit/withdraw_uni_position, burn_and_withdraw, liquidate, update, _reduce_debt, remove_liquidity on the pool) on a real "
@@ -29,9 +29,10 @@ ASSUMPTIONS = ["the oSQTH/WETH pool has token0 = WETH = quote token (as on mainn
 TOL = F(1, 10 ** 28)
 
 
-def close(a, b, tol=TOL):
+def close(a, b, tol=TOL, scale=F(0)):
+    """equal up to the 35-digit rounding of the operands (`scale` = magnitude of what was added / subtracted)"""
     a, b = L.fr(a), L.fr(b)
-    return a == b or abs(a - b) <= tol * max(abs(a), abs(b), F(1, 10 ** 6))
+    return a == b or abs(a - b) <= tol * max(abs(a), abs(b), abs(scale), F(1, 10 ** 6))
 
 
 def wallet_of(state, name):
@@ -113,7 +114,8 @@ def check_liquidated(ctx, o, sp, vid, v, after_v, key_prefix):
     if after_v is None:
         ctx.violate(f"{key_prefix}.vault-gone", f"vault {vid} disappeared", o.replay())
         return excess
-    if not (close(after_v["short"], s1) and close(after_v["coll"], c1)):
+    scale = (sp.eff_coll(v) or F(0)) + L.fr(v["short"]) * (1 + sp.to)
+    if not (close(after_v["short"], s1, scale=scale) and close(after_v["coll"], c1, scale=scale)):
         lp = "+lp" if v["nft"] is not None else ""
         ctx.violate(f"{key_prefix}.amounts{lp}",
                     f"vault {vid} (coll {v['coll']}, short {v['short']}, lp {v['nft']}) after liquidation has coll {after_v['coll']}, short {after_v['short']}; "
@@ -125,6 +127,8 @@ def check_liquidated(ctx, o, sp, vid, v, after_v, key_prefix):
 
 def oracle(ctx, o):
     check_window(ctx, o)
+    if getattr(o, "rate_ok", True) is False:
+        ctx.violate("by-rate.amount", f"collateral_amount_to_osqth({o.op['deposit']}, {o.op['byRate']}) = {o.op['mint']}", o.replay())
     k = o.op["k"]
     sp0 = L.Spec(o.before, o.env, o.tw, o.to, o.nf)
     sp1 = L.Spec(o.after, o.env, o.tw, o.to, o.nf)
@@ -262,11 +266,107 @@ def boundary_cases():
     return out
 
 
+def bar_loop(ctx, runner):
+    """the real bar loop: an Actuator run over in-memory data (random price / norm-factor path with a shock), a strategy that opens
+    vaults (some with LP collateral) early on; on every bar the state before `update()` (end of on_bar) and after it (after_bar) is
+    captured, the liquidation oracle is applied and the model's `update` step is compared"""
+    import logging
+    import os
+    import pandas as pd
+    from datetime import timedelta
+    os.environ["TQDM_DISABLE"] = "1"       # no progress bars from Actuator.run
+    from demeter import Strategy, Actuator
+    rng = ctx.rng
+    logging.disable(logging.CRITICAL)
+    n = rng.randint(9, 22)
+    rows = G.gen_rows(rng, n, 1, (rng.randint(2, n - 2), rng.choice([1.25, 1.4, 1.6, 2.0, 0.7])))
+    idx = pd.DatetimeIndex([L.BASE + timedelta(minutes=r[0]) for r in rows])
+    sqdf = pd.DataFrame(index=idx, data={"norm_factor": [r[1] for r in rows], "WETH": [r[2] for r in rows], "OSQTH": [r[3] for r in rows]})
+    prices = [r[3] for r in rows]
+    z = [0] * n
+    unidf = pd.DataFrame(index=idx, data={"netAmount0": z, "netAmount1": z, "closeTick": z, "openTick": z, "lowestTick": z, "highestTick": z,
+                                          "inAmount0": z, "inAmount1": z, "currentLiquidity": [10 ** 22] * n, "price": prices,
+                                          "volume0": [D(0)] * n, "volume1": [D(0)] * n, "open": prices, "low": prices, "high": prices})
+    m = L.imports()
+    weth, osqth = m["TokenInfo"]("weth", 18), m["TokenInfo"]("osqth", 18)
+    uni = m["UniLpMarket"](m["MarketInfo"]("Uni", m["MarketTypeEnum"].uniswap_v3), m["UniV3Pool"](weth, osqth, 0.3, weth), data=unidf)
+    sq = m["SqueethMarket"](m["MarketInfo"]("Squeeth", m["MarketTypeEnum"].squeeth), uni, data=sqdf)
+    act = Actuator()
+    act.broker.add_market(uni)
+    act.broker.add_market(sq)
+    act.broker.set_balance(weth, D(60))
+    act.broker.set_balance(osqth, D(40))
+    price = sqdf[["WETH", "OSQTH"]].copy()
+    price["OSQTH"] = price["OSQTH"] * price["WETH"]
+    act.set_price(price)
+    # a World view over the actuator's objects
+    L._patch_twap()
+    view = L.World.__new__(L.World)
+    view.m, view.weth, view.osqth, view.broker, view.uni, view.sq = m, weth, osqth, act.broker, uni, sq
+    view.tokens = {"WETH": weth, "OSQTH": osqth}
+    view.log = []
+    plans = [(rng.randint(0, 2), rng.choice([0, 1, 1])) for _ in range(rng.randint(1, 3))]   # (bar, with LP?)
+    ratio = [D(str(rng.choice([1.52, 1.6, 1.8, 2.5]))) for _ in plans]
+    captured = []
+
+    class Strat(Strategy):
+        def on_bar(self, snapshot):
+            i = list(idx).index(snapshot.timestamp)
+            view.env = {"rows": rows, "now": rows[i][0], "cur": rows[i][1:], "uniPrice": rows[i][3], "uniOpen": True, "kind": "bar-loop"}
+            for (bar, lp), cr in zip(plans, ratio):
+                if bar == i:
+                    try:
+                        pos = None
+                        if lp:
+                            t = G.tick_of(view, rows[i][3])
+                            key, _, _, _ = uni.add_liquidity_by_tick(t - 1200, t + 1200, D(5), D(1))
+                            pos = key
+                        sq.open_deposit_mint_by_collat_rate(D(str(rng.uniform(1, 6))), cr, None, pos)
+                    except Exception:  # noqa: BLE001 — rejected plans simply do not happen
+                        pass
+            o = L.Obs()
+            o.before = view.dump_state()
+            o.env = view.env
+            o.envj = L.snapshot_env(view)
+            o.tw, o.to = sq.get_twap_price(weth), sq.get_twap_price(osqth)
+            o.nf, o.weth, o.osqth = view.cur()
+            o.op, o.argc = {"k": "update"}, f"bar-loop:{len(o.before['vaults'])}-vaults"
+            o.n0 = len(act.actions)
+            captured.append(o)
+
+        def after_bar(self, snapshot):
+            o = captured[-1]
+            o.after = view.dump_state()
+            o.err, o.msg, o.out = None, "", []
+            o.actions = [L.action_json(a) for a in act.actions[o.n0:]]
+
+    L.Obs.__slots__  # noqa: B018
+    act.strategy = Strat()
+    import contextlib
+    import io
+    try:
+        with contextlib.redirect_stderr(io.StringIO()), contextlib.redirect_stdout(io.StringIO()):   # tqdm progress bar
+            act.run(False)
+    except Exception as ex:  # noqa: BLE001
+        ctx.violate(f"bar-loop.raises:{type(ex).__name__}", f"Actuator.run raised {type(ex).__name__}({str(ex)[:80]}) on path {[str(r[2]) for r in rows]}", {"rows": rows})
+    finally:
+        logging.disable(logging.NOTSET)
+    for o in captured:
+        if not hasattr(o, "after"):
+            continue
+        oracle(ctx, o)
+        runner.add(o)
+    ctx.count("bar_loop_runs")
+    ctx.count("bar_loop_liquidations", sum(1 for o in captured if hasattr(o, "after") and any(a["k"] == "liquidation" for a in o.actions)))
+
+
 def run(ctx: Ctx):
     runner = L.Runner(ctx)
     n = ctx.scale(140, 5000)
     for i in range(n):
         sequence(ctx, runner, ctx.rng.randint(4, 14))
+    for i in range(ctx.scale(25, 600)):
+        bar_loop(ctx, runner)
     for name, spec, env, op in boundary_cases():
         world = L.World(spec, env)
         o = L.observe(world, op, "boundary:" + name)
